@@ -113,6 +113,20 @@ CHECKS["C20"] = dict(
          "A top-level JSON null message is not generated (None means 'missing argument' to Klong calls).",
     design_ref="DESIGN.md section 5 C20")
 
+CHECKS["C01"] = dict(
+    technique="executable TLA+ reference semantics of the verbs (KgVerbs.tla over KgValues.tla) evaluated by TLC on every in-domain "
+              "case of a closed operand universe (KgUniverse.tla); each case replayed as literal source into KlongInterpreter and "
+              "compared structurally (nesting, elements, integer/real/character/string kind)",
+    category="model_checking",
+    text="The specification is the oracle: one TLA+ operator per verb transcribed from the reference text in the docstrings, with "
+         "a conservative domain predicate; TLC enumerates 19 monads and 23 dyads over 33 (thorough 51) operands incl. empty, "
+         "nested, ragged, matrix, string operands and negative / overshooting counts, and computes the prescribed value for "
+         "each of ~8.6k (thorough ~20k) in-domain cases; the real interpreter must return exactly that value.",
+    note="Trusted: TLC, my transcription of the reference text, canon.py / render. 18 families of disagreement with the reference "
+         "are listed as open findings (known_findings.json F-C01-*), matched by verb / operand class / difference class; any "
+         "disagreement outside them is a VIOLATION. Not transcribed yet: $ :$ a$b :- :@. Reals restricted to exact rationals.",
+    design_ref="DESIGN.md section 5 C01")
+
 NOT_YET = {}
 
 
